@@ -91,6 +91,53 @@ fn main() {
                 2
             }
         },
+        "gencorpus" => {
+            // mzv gencorpus <target> <dir> <n> [seed]: seed corpus for the libFuzzer targets
+            let target = args[2].as_str();
+            let dir = std::path::PathBuf::from(&args[3]);
+            let n: usize = args.get(4).and_then(|s| s.parse().ok()).unwrap_or(200);
+            let seed: u64 = args.get(5).and_then(|s| s.parse().ok()).unwrap_or(1);
+            std::fs::create_dir_all(&dir).expect("corpus dir");
+            use proptest::strategy::{Strategy, ValueTree};
+            let mut runner = mzv::runner::worker::make_runner(seed ^ 0xc0ffee);
+            let strat = mzv::props::common::any_input();
+            let mut cx = mzv::runner::Ctx::new(Tier::Quick, "corpus", vec![]);
+            let mut s = seed;
+            for i in 0..n {
+                let inp = strat.new_tree(&mut runner).expect("gen").current();
+                let Some((bytes, zl)) = inp.bytes(&mut cx) else { continue };
+                if bytes.len() > 4000 {
+                    continue;
+                }
+                let r = mzv::oracle::sums::splitmix64(&mut s);
+                let mut f: Vec<u8> = Vec::new();
+                match target {
+                    "decode_total" => {
+                        let nops = 1 + (r % 6) as u8;
+                        f.push(nops - 1 | if zl { 0x80 } else { 0 });
+                        for k in 0..nops {
+                            let x = mzv::oracle::sums::splitmix64(&mut s).to_le_bytes();
+                            f.extend_from_slice(&[5 + (x[0] % 11) | if k == 0 { 0x80 } else { 0 } | 0x20, if zl { 5 } else { 4 }, x[2], x[3]]);
+                        }
+                    }
+                    "inflate_proto" => {
+                        let nc = 1 + (r % 8) as u8;
+                        f.push(nc - 1 | if zl { 0x80 } else { 0 });
+                        for _ in 0..nc {
+                            let x = mzv::oracle::sums::splitmix64(&mut s).to_le_bytes();
+                            f.extend_from_slice(&[x[0], x[1]]);
+                        }
+                    }
+                    _ => {
+                        f.push((r as u8 & 0xfe) | zl as u8);
+                        f.push((r >> 8) as u8);
+                    }
+                }
+                f.extend_from_slice(&bytes);
+                std::fs::write(dir.join(format!("seed-{i:05}")), &f).expect("write seed");
+            }
+            0
+        }
         _ => {
             eprintln!("unknown subcommand");
             2
